@@ -68,6 +68,9 @@ func c08BiasJSON(e c08Entry) M {
 	return m
 }
 
+// considered set of the C08 requests: two of the three known alternatives unless the case says otherwise
+var c08Chose = L{"a", "b"}
+
 func c08Request(list []c08Entry, seed int64) M {
 	var bs L
 	for _, e := range list {
@@ -79,7 +82,7 @@ func c08Request(list []c08Entry, seed int64) M {
 	return M{
 		"preferenceFunction":  "weightedSum",
 		"knownAlternatives":   L{alt("a", map[string]float64{"c1": 1, "c2": 4, "c3": 2}), alt("b", map[string]float64{"c1": 3, "c2": 1, "c3": 2.5}), alt("c", map[string]float64{"c1": 2, "c2": 2, "c3": 0.5})},
-		"choseToMake":         L{"a", "b"},
+		"choseToMake":         c08Chose,
 		"criteria":            L{crit("c1", "gain"), crit("c2", "cost"), crit("c3", "gain")},
 		"methodParameters":    M{"weights": M{"c1": 1.0, "c2": 2.0, "c3": 3.0}},
 		"biasApplyRandomSeed": seed,
@@ -179,6 +182,14 @@ func c08Check(c *Case) []Violation {
 }
 
 func c08CheckList(c *Case, list []c08Entry, draws []float64) (*c08Obs, []Violation) {
+	c08Chose = L{"a", "b"}
+	if ch, ok := c.Params["chose"]; ok {
+		c08Chose = L{}
+		for _, id := range toStrings(ch) {
+			c08Chose = append(c08Chose, id)
+		}
+	}
+	defer func() { c08Chose = L{"a", "b"} }()
 	if draws != nil {
 		// the script answers 0.5 beyond its listed draws: spell that out, one draw per entry
 		for len(draws) < len(list) {
@@ -456,6 +467,27 @@ func c08Run(s *Shard) {
 			}
 		}
 	})
+	// other considered sets (a single alternative, every known alternative, an unsorted pair): the per-list clauses for
+	// every list of at most two entries under the four constant draw scripts
+	for _, chose := range [][]string{{"b"}, {"a", "b", "c"}, {"c", "a"}} {
+		for k := 0; k < 4; k++ {
+			if !s.Take() {
+				continue
+			}
+			draws := []float64{c08Draws[k], c08Draws[k], c08Draws[k]}
+			c08Cache = map[string]*c08Obs{}
+			for _, list := range lists {
+				if len(list) > 2 {
+					continue
+				}
+				c := &Case{Prop: "C08", Kind: "list", Params: M{"list": list, "draws": draws, "chose": chose}}
+				s.Evals++
+				s.Begin(c)
+				_, vs := c08CheckList(c, list, draws)
+				s.Report(vs)
+			}
+		}
+	}
 	// long lists (one bias may be listed many times): 63..70 and 130 entries, enabled / disabled / probability 0 mixed in;
 	// every clause of the per-list check at every position, scripted draws (0.5 from the fourth position on)
 	c08Cache = nil
